@@ -399,8 +399,9 @@ struct World
     long const accept = op.get("accept", -1);
     if (accept >= 0)
       wb.accept_limit(accept);
+    static std::locale const plain_locale("C.utf8");
     std::basic_ostream<Ch> os(&wb);
-    os.imbue(sim::sim_locale());
+    os.imbue(plain_locale);
     std::size_t acked = 0;
     std::vector<std::size_t> ends; // offset after the text of each completely written value
     {
@@ -435,7 +436,7 @@ struct World
     if (op.has("trunc"))
       rb.visible(visible);
     std::basic_istream<Ch> is(&rb);
-    is.imbue(sim::sim_locale());
+    is.imbue(plain_locale);
     bool failed_once = false;
     unsigned good = 0;
     for (std::size_t k = 0; k < items.size(); ++k)
@@ -531,7 +532,9 @@ struct World
       ctx.probe("narrow_zero_progress_partial");
     if (utf8.size() > w.size())
       ctx.probe("encoded_longer_than_initial_buffer");
-    if (sim::codecvt_ctl().stalled)
+    long const stall_cfg = op.get("stall", -1);
+    bool const will_stall = stall_cfg >= 0 && static_cast<std::size_t>(stall_cfg) < w.size();
+    if (will_stall || sim::codecvt_ctl().stalled)
     {
       // the facet said "partial, no progress, however much room": the rest cannot be converted
       SIM_CHECK(!narrow.has_value(), "silent-truncation", "narrow returned " + std::to_string(narrow.has_value() ? narrow.get_unsafe().size() : 0) + " of " + std::to_string(utf8.size()) + " bytes as success although the facet could not convert the rest");
@@ -551,6 +554,10 @@ struct World
         sim::violate(prefix ? "silent-truncation" : "roundtrip", "narrow of " + std::to_string(w.size()) + " characters returned " + std::to_string(got.size()) + " bytes (" + hex(got) + "), the complete UTF-8 encoding has " + std::to_string(utf8.size()) + " bytes (" + hex(utf8) + ")");
       }
     }
+    else if (window > 0)
+      // a facet that answers `partial` although plenty of room is left is legal but unlike any real
+      // facet; an implementation may give up on it (only a returned value is judged)
+      ctx.probe("narrow_gave_up_on_windowed_facet");
     else
       sim::violate("spurious-conversion-failure", "narrow of a valid string failed (" + hex(utf8) + ")");
     // widen (optionally of a torn encoding)
@@ -608,8 +615,11 @@ struct World
     }
     else
     {
-      SIM_CHECK(!threw, "spurious-conversion-failure", "widen of a valid string failed");
-      if (wide != expect_w)
+      if (threw && window > 0)
+        ctx.probe("widen_gave_up_on_windowed_facet");
+      else
+        SIM_CHECK(!threw, "spurious-conversion-failure", "widen of a valid string failed");
+      if (!threw && wide != expect_w)
       {
         bool const prefix = wide.size() < expect_w.size() && expect_w.compare(0, wide.size(), wide) == 0;
         sim::violate(prefix ? "silent-truncation" : "roundtrip", "widen returned " + std::to_string(wide.size()) + " characters, expected " + std::to_string(expect_w.size()));
@@ -658,8 +668,9 @@ struct World
     }
     text.push_back(Ch(' '));
     sim::StreamBuf<Ch> rb(text, op.getu("rchunk") % 9);
+    static std::locale const plain_locale("C.utf8");
     std::basic_istream<Ch> is(&rb);
-    is.imbue(sim::sim_locale());
+    is.imbue(plain_locale);
     color got = c == color::x ? color::red : color::x; // something else than c
     color const before = got;
     {
@@ -670,6 +681,11 @@ struct World
       SIM_CHECK(is.fail(), "value-after-read-error", "enum input produced a value although the stream failed");
     else if (valid)
       SIM_CHECK(!is.fail() && got == c, "roundtrip", "enum name '" + name + "' was not read back");
+    else if (variant == 1 || variant == 2)
+      // a prefix of the name, or the name followed by more characters: an input operator may
+      // accept these as the enumerator (prefix matching, leaving the rest in the stream); what it
+      // must not do is produce ANOTHER enumerator
+      SIM_CHECK(is.fail() || got == c, "malformed-name-accepted", "enum input read variant " + std::to_string(variant) + " of '" + name + "' as a different enumerator " + std::to_string(static_cast<int>(got)));
     else
     {
       SIM_CHECK(is.fail(), "malformed-name-accepted", "enum input accepted a text that is not a name (variant " + std::to_string(variant) + " of '" + name + "') and produced enumerator " + std::to_string(static_cast<int>(got)));
@@ -713,7 +729,10 @@ struct World
       sim::fault::Sut s;
       res = fcppt::io::narrow_string_locale(std::wstring_view{w}, loc);
     }
-    if (representable)
+    bool const lossless_utf8 = op.get("classic") == 0 && res.has_value() && res.get_unsafe() == sim::utf8_encode(w);
+    if (lossless_utf8)
+      ctx.probe("ionarrow_complete_utf8");
+    else if (representable)
       SIM_CHECK(res.has_value() && res.get_unsafe() == expect, "roundtrip", "narrow_string of a representable string");
     else
     {
